@@ -80,7 +80,7 @@ def ctor_finding(o, v):
 def split_bars(case):
     idx, tracks, meta_idx, qnl = case
     line = {"kind": "split", "metaIdx": meta_idx + 1, "qnl": qnl, "tracks": [], "tracksAfter": [], "absBefore": [],
-            "absAfter": [], "bars": [], "raised": "", "case": {"tracks": tracks, "metaIdx": meta_idx, "qnl": qnl}}
+            "absAfter": [], "bars": [], "raised": "", "compA": [], "compB": [], "case": {"tracks": tracks, "metaIdx": meta_idx, "qnl": qnl}}
     try:
         seqs = [build(t, via(idx + i)) for i, t in enumerate(tracks)]
         line["tracks"] = [P.raw_rel(s) for s in seqs]
@@ -93,6 +93,27 @@ def split_bars(case):
                           "den": b.time_signature_denominator, "key": kname(b.key_signature)} for b in tb] for tb in out]
         line["tracksAfter"] = [P.raw_rel(s) for s in seqs]
         line["absAfter"] = [P.raw_abs(s) for s in seqs]
+        if idx % 6 == 5:
+            # the Composition entry point (file -> load -> quantise_and_normalise -> bars) against the same steps done by hand
+            import os, tempfile
+            from scoda.elements.composition import Composition
+            fd, path = tempfile.mkstemp(suffix=".mid", dir=TMPDIR)
+            os.close(fd)
+            try:
+                Sequence.sequences_save([build(t, "abs") for t in tracks], path)
+                n = len(tracks)
+                args = dict(track_indices=[[i] for i in range(n)], meta_track_indices=list(range(n)))
+                comp = Composition.from_midi_file(path, meta_track_index=meta_idx, **args)
+                hand = Sequence.sequences_load(file_path=path, target_meta_track_index=meta_idx, **args)
+                [s.quantise_and_normalise() for s in hand]
+                proj = lambda tb: [{"rel": P.raw_rel(b.sequence), "num": b.time_signature_numerator,
+                                    "den": b.time_signature_denominator, "key": kname(b.key_signature)} for b in tb]
+                line["compA"] = [proj(t.bars) for t in comp.tracks]
+                line["compB"] = [proj(tb) for tb in Sequence.sequences_split_bars(hand, meta_track_index=meta_idx)]
+            except Exception as e:
+                line["compA"], line["compB"] = [[f"raised {type(e).__name__}"]], []
+            finally:
+                os.unlink(path)
     except Exception as e:
         line["raised"] = f"{type(e).__name__}: {e}"
     return line
@@ -103,7 +124,12 @@ def with_meta(score, meta, dur):
     return sc
 
 
+TMPDIR = None
+
+
 def run(ctx):
+    global TMPDIR
+    TMPDIR = str(ctx.tmp)
     g = ctx.generate("Gen_Bars", "Gen_Bars.cfg", env={"VERIF_TIER": ctx.tier})[0] if not ctx.replay else None
     if ctx.pid == "C10":
         return run_ctor(ctx, g)
